@@ -429,8 +429,11 @@ func c10Porcupine(bound int) porcupine.Model {
 	}
 }
 
-// c10Concurrent runs one concurrent history on a real sequencer; values are unique.
-func c10Concurrent(seed uint64, bound int) (porcupine.CheckResult, int) {
+// c10Concurrent runs one concurrent history on a real sequencer: 4 client tasks whose interleaving at
+// every datastore operation is decided by a seeded ParkSched, few distinct contents (so identical
+// batches are submitted by overlapping callers) mixed with unique ones, then a restart (new sequencer on
+// the durable image) and a drain, all of it one porcupine history against the FIFO model.
+func c10Concurrent(o *sim.Outcome, seed uint64, bound int) (porcupine.CheckResult, int, string) {
 	ctx := context.Background()
 	disk := sim.NewDisk(nil)
 	m, _ := single.NopMetrics()
@@ -439,22 +442,27 @@ func c10Concurrent(seed uint64, bound int) (porcupine.CheckResult, int) {
 	if err != nil {
 		panic(err)
 	}
+	ps := sim.NewParkSched(seed)
+	disk.Yield = ps.Yield
 	var clock atomic.Int64
 	var mu sync.Mutex
 	var ops []porcupine.Operation
-	var wg sync.WaitGroup
 	clients := 4
+	shared := seed%3 != 0 // two thirds of the histories use a small shared content set
 	for c := 0; c < clients; c++ {
-		wg.Add(1)
-		go func(c int) {
-			defer wg.Done()
+		c := c
+		ps.Go(func() {
 			r := rand.New(rand.NewPCG(seed, uint64(c)))
 			for k := 0; k < 6; k++ {
+				ps.Yield()
 				var in c10In
 				var out c10Out
 				call := clock.Add(1)
-				if r.IntN(2) == 0 {
+				if r.IntN(3) != 0 {
 					in = c10In{op: 0, val: fmt.Sprintf("v%d-%d", c, k)}
+					if shared && r.IntN(3) != 0 {
+						in.val = fmt.Sprintf("same%d", r.IntN(2))
+					}
 					_, err := seq.SubmitBatchTxs(ctx, coresequencer.SubmitBatchTxsRequest{Id: chain, Batch: &coresequencer.Batch{Transactions: [][]byte{[]byte(in.val)}}})
 					out = c10Out{ok: err == nil}
 				} else {
@@ -470,11 +478,47 @@ func c10Concurrent(seed uint64, bound int) (porcupine.CheckResult, int) {
 				ops = append(ops, porcupine.Operation{ClientId: c, Input: in, Call: call, Output: out, Return: ret})
 				mu.Unlock()
 			}
-		}(c)
+		})
 	}
-	wg.Wait()
+	if err := ps.Run(); err != nil {
+		return porcupine.Illegal, len(ops), "clients deadlocked: " + err.Error()
+	}
+	disk.Yield = nil
+	o.Logf("concurrent schedule %v", ps.Trace)
+	o.Count("interleaving-decisions", len(ps.Trace))
+	o.Count("decisions-while-a-client-waited-for-a-lock", ps.Blocks)
+	// restart on the durable image and drain: everything accepted and not handed out, once, in order
+	seq2, err := single.NewSequencerWithQueueSize(ctx, logging.Logger("verif"), disk.Open(), nil, chain, time.Second, m, true, bound)
+	if err != nil {
+		return porcupine.Illegal, len(ops), "restart failed: " + err.Error()
+	}
+	for k := 0; k <= clients*6; k++ {
+		call := clock.Add(1)
+		res, err := seq2.GetNextBatch(ctx, coresequencer.GetNextBatchRequest{Id: chain})
+		out := c10Out{ok: err == nil}
+		if err == nil && res != nil && res.Batch != nil && len(res.Batch.Transactions) > 0 {
+			out.val = string(bytes.Join(res.Batch.Transactions, []byte("+")))
+		}
+		ops = append(ops, porcupine.Operation{ClientId: clients, Input: c10In{op: 1}, Call: call, Output: out, Return: clock.Add(1)})
+		if out.val == "" {
+			break
+		}
+	}
 	res := porcupine.CheckOperationsTimeout(c10Porcupine(bound), ops, 10*time.Second)
-	return res, len(ops)
+	detail := ""
+	if res == porcupine.Illegal {
+		var sb strings.Builder
+		for _, op := range ops {
+			in, out := op.Input.(c10In), op.Output.(c10Out)
+			if in.op == 0 {
+				fmt.Fprintf(&sb, "[c%d %d-%d submit %s ok=%v] ", op.ClientId, op.Call, op.Return, in.val, out.ok)
+			} else {
+				fmt.Fprintf(&sb, "[c%d %d-%d next -> %q] ", op.ClientId, op.Call, op.Return, out.val)
+			}
+		}
+		detail = fmt.Sprintf("schedule %v; history (client %d = after restart): %s", ps.Trace, clients, sb.String())
+	}
+	return res, len(ops), detail
 }
 
 func TestC10(t *testing.T) {
@@ -483,7 +527,7 @@ func TestC10(t *testing.T) {
 		Level: "exploration",
 		Rule: "seeded histories of submit (4 contents x 3 sizes, so identical batches recur; empty; foreign chain id; beyond the bound), next, restart (new sequencer on the durable image) and a crash cutting the durable write inside submit/next, " +
 			"checked operation by operation against a FIFO model (a set of candidate queues while an operation cut by a crash is undetermined), plus a final restart-and-drain; " +
-			"each scenario also runs one concurrent history (4 real client goroutines, unique values) checked with porcupine against the same FIFO model. " +
+			"each scenario also runs one concurrent history (4 client tasks, interleaved at every datastore operation by a seeded park-and-release scheduler; shared and unique contents; then a restart and a drain) checked with porcupine against the same FIFO model. " +
 			"distinct = distinct scenario hash; non-trivial = at least 2 batches handed out and at least 2 restarts/crashes",
 		Assumptions: []string{"simulated disk returns query results in key order (as badger does)", "porcupine Unknown (timeout) is counted as inconclusive, never as violation"},
 		Components:  map[string]string{"sequencers/single (Sequencer, BatchQueue)": "real", "datastore": "stub (SimDatastore)"},
@@ -491,12 +535,12 @@ func TestC10(t *testing.T) {
 		Run: func(t *testing.T, s *sim.Scn) *sim.Outcome {
 			o := c10Run(t, s)
 			if o.V == nil && s.Cfg["conc"] == 1 {
-				res, n := c10Concurrent(uint64(s.Cfg["concseed"]), int(s.Cfg["bound"]))
+				res, n, detail := c10Concurrent(o, uint64(s.Cfg["concseed"]), int(s.Cfg["bound"]))
 				o.Count("porcupine-histories", 1)
 				o.Count("porcupine-ops", n)
 				switch res {
 				case porcupine.Illegal:
-					o.Fail("C10/concurrent-history-not-linearizable", "", -1, "porcupine: Illegal", "linearizable w.r.t. the bounded FIFO model")
+					o.Fail("C10/concurrent-history-not-linearizable", "", -1, "porcupine: Illegal; "+detail, "linearizable w.r.t. the bounded FIFO model, including the drain after a restart")
 				case porcupine.Unknown:
 					o.Count("porcupine-inconclusive", 1)
 				}
